@@ -126,9 +126,18 @@ def _excepthook(tp, val, tb):
     # the obligation expects a value); one raised by the replay script or by /verif helpers is a harness crash (exit 3, never a verdict)
     import traceback
     traceback.print_exception(tp, val, tb)
-    last = traceback.extract_tb(tb)[-1].filename if tb is not None else ""
+    # attribution: walking from the innermost frame outwards, library frames (numpy, sympy, ...) are skipped; the first frame that is
+    # chempy's own means chempy made the failing call (exit 1), the first that is this script's or a /verif helper's means we did (exit 3)
+    code = 3
+    for fr in reversed(traceback.extract_tb(tb) if tb is not None else []):
+        fn_ = os.path.realpath(fr.filename)
+        if fn_.startswith(_CHEMPY_ROOT):
+            code = 1
+            break
+        if fn_.startswith("/verif" + os.sep) or fn_ == os.path.realpath(sys.argv[0]) or fr.filename.startswith("<"):
+            break
     sys.stdout.flush(); sys.stderr.flush()
-    os._exit(1 if os.path.realpath(last).startswith(_CHEMPY_ROOT) else 3)
+    os._exit(code)
 
 
 sys.excepthook = _excepthook
